@@ -1196,3 +1196,129 @@ Proof.
   split; [vm_compute; reflexivity|].
   eexists. split; [vm_compute; right; left; reflexivity|]. vm_compute. repeat split; reflexivity.
 Qed.
+
+(* ================================================================== invariant 4: pooled buffers are exclusively owned *)
+From Coq Require Import Permutation.
+
+Definition bufs (s : st) : list Z := map s_buf (pl s) ++ map s_buf (curl s) ++ free s.
+Definition Inv4 (s : st) : Prop := NoDup (bufs s) /\ forall b, In b (bufs s) -> b < nextb s.
+
+Lemma Inv4_same s s' : bufs s' = bufs s -> nextb s' = nextb s -> Inv4 s -> Inv4 s'.
+Proof. unfold Inv4. intros -> ->. auto. Qed.
+
+Lemma bufs_flush_frame w s : bufs (flush_frame w s) = bufs s /\ nextb (flush_frame w s) = nextb s.
+Proof. unfold flush_frame, bufs, curl. destruct (cur s) as [g|] eqn:Hg; cbn; rewrite ?Hg; split; reflexivity. Qed.
+Lemma bufs_flush_cache s : bufs (flush_cache s) = bufs s /\ nextb (flush_cache s) = nextb s.
+Proof.
+  unfold flush_cache. destruct (cache s) as [a|]; [|split; reflexivity].
+  destruct (bufs_flush_frame (cache_frame a) s) as [A B]. split; [exact A | exact B].
+Qed.
+
+Lemma closed_as_bufs s g s1 : cur s = Some g -> closed_as s g s1 ->
+  Permutation (map s_buf (pl s1) ++ free s1) (bufs s).
+Proof.
+  intros Hc CA. unfold bufs, curl. rewrite Hc. cbn [map].
+  destruct CA as [Hd E1 E2 E3 E4 E5 | Hd E1 E2 E3 E4 E5]; rewrite E2, E5.
+  - apply Permutation_refl.
+  - set (L := pl s ++ [g]). set (k := (length (pl s) + 1 - 3)%nat).
+    replace (map s_buf (pl s) ++ [s_buf g] ++ free s) with (map s_buf L ++ free s)
+      by (subst L; rewrite map_app, <- app_assoc; reflexivity).
+    rewrite <- (firstn_skipn k L) at 3. rewrite map_app, app_assoc. apply Permutation_app_tail.
+    etransitivity; [apply Permutation_app_comm|]. apply Permutation_app_tail. symmetry. apply Permutation_rev.
+Qed.
+
+Lemma nodup_app_r {A} (l l' : list A) : NoDup (l ++ l') -> NoDup l'.
+Proof. induction l as [|a l IH]; cbn; [auto|]. intros N. inversion N; subst. auto. Qed.
+Lemma nodup_app_l {A} (l l' : list A) : NoDup (l ++ l') -> NoDup l.
+Proof.
+  induction l as [|a l IH]; cbn; [constructor|]. intros N. inversion N as [|? ? Hn N']; subst.
+  constructor; [intros H; apply Hn, in_or_app; left; exact H | auto].
+Qed.
+
+Lemma Inv4_reap c start a s g : cur s = Some g -> Inv4 s -> Inv4 (reap c start a s).
+Proof.
+  intros Hc [N B].
+  pose proof (reap_spec c start a s g Hc) as R. cbn zeta in R.
+  destruct R as (s1 & g' & CA & Nb & R1 & _ & _ & _ & _ & _ & _ & _ & R5 & _ & _ & _ & _ & RB).
+  pose proof (closed_as_bufs s g s1 Hc CA) as P.
+  assert (N1 : NoDup (map s_buf (pl s1) ++ free s1)) by (eapply Permutation_NoDup; [symmetry; exact P | exact N]).
+  assert (B1 : forall b, In b (map s_buf (pl s1) ++ free s1) -> b < nextb s1).
+  { intros b Hb. rewrite Nb. apply B. eapply Permutation_in; [exact P | exact Hb]. }
+  unfold Inv4, bufs, curl. rewrite R1, R5. cbn [map].
+  destruct RB as [(l1 & l2 & E1 & E2 & E3) | (E1 & E2 & E3)]; rewrite E2, E3.
+  - assert (P2 : Permutation (map s_buf (pl s1) ++ [s_buf g'] ++ l1 ++ l2) (map s_buf (pl s1) ++ free s1)).
+    { rewrite E1. apply Permutation_app_head. cbn [app]. apply Permutation_middle. }
+    split; [eapply Permutation_NoDup; [symmetry; exact P2 | exact N1]|].
+    intros b Hb. apply B1. eapply Permutation_in; [exact P2 | exact Hb].
+  - split.
+    + assert (P2 : Permutation (s_buf g' :: map s_buf (pl s1) ++ free s1) (map s_buf (pl s1) ++ [s_buf g'] ++ free s1))
+        by (cbn [app]; apply Permutation_middle).
+      eapply Permutation_NoDup; [exact P2|]. constructor; [|exact N1].
+      intros Hin. specialize (B1 _ Hin). lia.
+    + intros b Hb. apply in_app_or in Hb. destruct Hb as [Hb|[<-|Hb]].
+      * specialize (B1 b (in_or_app _ _ _ (or_introl Hb))). lia.
+      * lia.
+      * cbn [app] in Hb. specialize (B1 b (in_or_app _ _ _ (or_intror Hb))). lia.
+Qed.
+
+Lemma Inv4_write_frame c f s : Inv4 s -> Inv4 (write_frame c f s).
+Proof.
+  apply write_frame_preserves.
+  - intros s0 o H. exact H.
+  - intros s0 b n H. exact H.
+  - intros s0 H. destruct (bufs_flush_cache s0) as [A B]. eapply Inv4_same; eauto.
+  - intros s0 g H Hg _. eapply Inv4_reap; eauto.
+  - intros s0 g H Hg _. destruct (bufs_flush_frame (video_frame c f) s0) as [A B]. eapply Inv4_same; eauto.
+  - intros s0 g H Hg _ _. destruct (bufs_flush_frame (video_frame c f) (reap c (f_pts f) false s0)) as [A B].
+    eapply Inv4_same; eauto. eapply Inv4_reap; eauto.
+Qed.
+
+Lemma Inv4_init c : Inv4 (init c).
+Proof.
+  unfold init. pose proof (segment_open_spec c 0 true false init_free eq_refl) as SO. cbn zeta in SO.
+  destruct SO as (b & O1 & _ & _ & _ & _ & O6 & _ & _ & O9).
+  unfold Inv4, bufs, curl. rewrite O1, O6. cbn [map app s_buf].
+  destruct O9 as [(l1 & l2 & E1 & _) | (E1 & E2 & E3)].
+  - cbn in E1. destruct l1; discriminate.
+  - rewrite E2, E3, E1. cbn. split; [constructor; [intros []|constructor]|]. intros x [<-|[]]. lia.
+Qed.
+
+Lemma Inv4_feed c fs : forall s, Inv4 s -> Inv4 (feed c fs s).
+Proof. induction fs as [|f fs IH]; intros s H; [exact H|]. cbn [feed]. apply IH, Inv4_write_frame, H. Qed.
+
+Lemma NoDup_map_inj {A B} (f : A -> B) l x y : NoDup (map f l) -> In x l -> In y l -> f x = f y -> x = y.
+Proof.
+  induction l as [|a l IH]; intros N Hx Hy E; [destruct Hx|].
+  cbn [map] in N. inversion N as [|? ? Hn N']; subst.
+  destruct Hx as [->|Hx], Hy as [->|Hy]; try reflexivity.
+  - exfalso. apply Hn. rewrite E. apply in_map. exact Hy.
+  - exfalso. apply Hn. rewrite <- E. apply in_map. exact Hx.
+  - apply IH; assumption.
+Qed.
+
+(* while frames arrive: a listed segment is the only owner of its buffer, the buffer is not in the pool,
+   and the buffer's bytes start with exactly the transport stream of that segment — so the copy that the
+   repaired get() takes under the read lock is the segment *)
+Theorem buffer_holds_segment (tsw : list wframe -> bytes) c fs g :
+  let s := feed c fs (init c) in
+  In g (pl s) ->
+  ~ In (s_buf g) (free s) /\
+  (forall g', In g' (pl s ++ curl s) -> s_buf g' = s_buf g -> g' = g) /\
+  firstn (length (tsw (s_frames g))) (buffer_bytes tsw (s_buf g) s) = tsw (s_frames g).
+Proof.
+  intros s Hin. pose proof (Inv4_feed c fs (init c) (Inv4_init c)) as [N _]. fold s in N. unfold bufs in N.
+  assert (N2 : NoDup (map s_buf (pl s ++ curl s))).
+  { rewrite map_app. rewrite app_assoc in N. apply nodup_app_l in N. exact N. }
+  split; [|split].
+  - intros Hf. apply in_split in Hin as (l1 & l2 & E). rewrite E, map_app in N. cbn [map] in N.
+    rewrite <- app_assoc in N. apply nodup_app_r in N. cbn [app] in N. inversion N as [|? ? Hn _]; subst.
+    apply Hn. apply in_or_app. right. apply in_or_app. right. exact Hf.
+  - intros g' Hg' E. eapply NoDup_map_inj; eauto. apply in_or_app. left. exact Hin.
+  - unfold buffer_bytes, owner.
+    destruct (find (fun g0 => s_buf g0 =? s_buf g) (pl s)) as [g0|] eqn:Ef.
+    + apply find_some in Ef as [F1 F2]. apply Z.eqb_eq in F2.
+      assert (g0 = g).
+      { eapply NoDup_map_inj; [exact N2 | | | exact F2]; apply in_or_app; left; assumption. }
+      subst g0. apply overlay_firstn.
+    + exfalso. pose proof (find_none _ _ Ef g Hin) as K. cbn in K. rewrite Z.eqb_refl in K. discriminate.
+Qed.
